@@ -18,10 +18,14 @@ CASES = os.path.join(COQ, "cases")
 EVID = os.path.join(VERIF, "evidence")
 REPLAYS = os.path.join(VERIF, "replays")
 REPO = os.environ.get("VERIF_REPO", "/repo").rstrip("/")
+MAIN_COQ = COQ
 if REPO != "/repo":
-    # a run against another source tree (seeded changes) must not overwrite the evidence of /repo
+    # a run against another source tree (seeded changes) must neither overwrite the evidence of /repo nor
+    # regenerate Gen/*.v inside the main development: it works in its own copy of the Coq tree
     EVID = os.path.join(VERIF, "evidence_other")
     REPLAYS = os.path.join(VERIF, "replays_other")
+    COQ = os.path.join(VERIF, "coq_other", re.sub(r"[^A-Za-z0-9_.-]", "_", REPO.strip("/")))
+    CASES = os.path.join(COQ, "cases")
 JOBS = int(os.environ.get("VERIF_JOBS", "16"))
 COQ_FLAGS = ["-Q", os.path.join(COQ, "theories"), "FGV", "-w",
              "-notation-overridden,-ambiguous-paths,-deprecated-hint-without-locality"]
@@ -44,6 +48,27 @@ Open Scope string_scope.
 Open Scope Z_scope.
 Set Warnings "-abstract-large-number".
 """
+
+
+def prepare_other_tree():
+    """Copy the main Coq development (sources and compiled files, timestamps kept) for a run against
+    another source tree; only what the regenerated Gen/*.v invalidate is rebuilt there."""
+    if REPO == "/repo":
+        return
+    os.makedirs(COQ, exist_ok=True)
+    lockf = open(os.path.join(MAIN_COQ, ".lock"), "w")
+    fcntl.flock(lockf, fcntl.LOCK_EX)
+    try:
+        subprocess.run(["rsync", "-a", "--delete", "--exclude", "cases", "--exclude", ".lock",
+                        MAIN_COQ + "/", COQ + "/"], check=True)
+    finally:
+        fcntl.flock(lockf, fcntl.LOCK_UN)
+        lockf.close()
+    # the copied Makefile refers to relative paths only; force a fresh one to be safe
+    try:
+        os.remove(os.path.join(COQ, "Makefile"))
+    except OSError:
+        pass
 
 
 def assert_repo():
